@@ -342,7 +342,8 @@ class ImageWorld:
             else:
                 blob = rng.choice(self.names)
                 data, fmt, _, svg_ok = self.blobs[blob]
-                natural = {'PNG': 'image/png', 'JPEG': 'image/jpeg', 'MPO': 'image/jpeg', 'OTHER': 'image/gif'}.get(
+                natural = {'PNG': 'image/png', 'JPEG': 'image/jpeg', 'MPO': 'image/jpeg',
+                           'OTHER': 'image/tiff' if blob == 'tiff_f' else 'image/gif'}.get(
                     fmt, 'image/svg+xml' if blob in ('svg', 'badsvg') else 'application/octet-stream')
                 mime = rng.choice([natural, natural, natural, None, 'image/svg+xml', 'text/plain'])
                 file = rng.choice([None, None, None, f'/nonexistent/dir/f{i}.bin'])
@@ -380,7 +381,8 @@ class ImageWorld:
                 continue
             _, mime, file, blob, _ = descriptor
             _, fmt, exif, svg_ok = self.blobs[blob]
-            out.append([url, 'ok', mime or 'none', file or 'none', self.blob_id[blob], svg_ok, fmt or 'none', exif])
+            out.append([url, 'ok', mime or 'none', file or 'none', self.blob_id[blob], svg_ok, fmt or 'none', exif,
+                        blob not in c19_gen.UNENCODABLE])
         return out
 
     # canonical printing ---------------------------------------------------------------------------------------
@@ -516,6 +518,8 @@ def image_branch_tags(world, resources, calls, values, entries):
                 tags.add('raster-after-failed-svg' if mime == 'image/svg+xml' else 'raster')
                 tags.add('source-file' if ':file=' in value else 'source-cached')
                 tags.add('format-' + value.split(':')[-3])
+            elif value == 'none' and descriptor[3] in c19_gen.UNENCODABLE:
+                tags.add('unencodable')
             elif value == 'none':
                 tags.add('undecodable-svg-mime' if mime == 'image/svg+xml' else 'undecodable')
             if blob[2] and orientation == 'from-image':
@@ -531,7 +535,7 @@ def image_branch_tags(world, resources, calls, values, entries):
 EXPECTED_TAGS = {
     'image-cache': ['hit', 'miss-fetcher-raises', 'miss-keyerror', 'miss-decoded', 'svg-by-mime', 'svg-last-chance',
                     'raster', 'raster-after-failed-svg', 'source-file', 'source-cached', 'format-JPEG', 'format-PNG',
-                    'undecodable', 'undecodable-svg-mime', 'exif-transposed', 'bytes-original', 'bytes-reencoded-same',
+                    'undecodable', 'undecodable-svg-mime', 'unencodable', 'exif-transposed', 'bytes-original', 'bytes-reencoded-same',
                     'bytes-reencoded-rot', 'bytes-reencoded-exif', 'disk', 'dict', 'mixed-options',
                     'same-request-other-options'],
     'pdf-zoom-docs': ['bleed', 'bleed-capped', 'internal-links', 'bookmarks', 'mixed-sizes', 'ua', 'plain', 'copy',
@@ -542,11 +546,12 @@ EXPECTED_TAGS = {
     'disk-cache': ['disciplined', 'mixed-kinds'],
     'write-state': ['dropped-after-annotated', 'all-current', 'xobject', 'PNG', 'JPEG'],
     'bookmark-tree': ['ok', 'assert'],
+    'text-decoration': ['union', 'pass-through', 'text_decoration_line', 'text_decoration_color'],
     'render-state': ['renders1', 'renders2', 'renders3', 'renders4', 'font-faces', 'caller-cache', 'folder-cache',
                      'raw-sheet'],
     'history (validation)': ['process-vs-process', 'same-html-object', 'write-twice', 'snapshot', 'cache-dict',
                              'cache-disk', 'cache-none', 'shared-font-config', 'fresh-font-config', 'repeat-job',
-                             'permutation'],
+                             'permutation', 'sequence', 'real-ua', 'font-binding'],
 }
 
 
@@ -555,7 +560,8 @@ def section_images(run, world):
     sec = run.section(
         'image-cache',
         'real get_image_from_uri over histories of 1..14 calls sharing a dict or a DiskCache, recording memory fetcher '
-        '(PNG, JPEG, JPEG+EXIF, GIF, MPO, SVG, broken SVG, garbage, empty, fetcher raising, dict without data, file: '
+        '(PNG, JPEG, JPEG+EXIF, GIF, MPO, a float TIFF that Pillow opens but cannot write as PNG, SVG, broken SVG, '
+        'garbage, empty, fetcher raising, dict without data, file: '
         'redirections), 8 orientations, forced MIME types, optimize / jpeg_quality / dpi fixed for the history or '
         'changing from call to call (a cache shared by renders with different image options); compared: every returned '
         'value, every cache entry in order, every fetch; non-trivial = some key is requested twice')
@@ -789,6 +795,69 @@ def section_write_state(run, factory, world):
         sec.add(sx.line('xobjects', 64, 32, *['none' if t is None else list(t) for t in targets]), out,
                 meta={'format': fmt, 'targets': targets}, nontrivial=sum(t is not None for t in targets) >= 2,
                 tags=['xobject', fmt])
+
+
+# ---------------------------------------------------------------------------------------------- text-decoration
+
+DECO_LINES = ['underline', 'overline', 'line-through', 'blink']
+DECO_KEYS = ['text_decoration_line', 'text_decoration_line', 'text_decoration_line', 'text_decoration_color',
+             'text_decoration_style', 'text_decoration_thickness', 'color']
+
+
+def run_text_decoration(key, value, parent, cascaded):
+    """The real css.text_decoration on fresh objects -> canonical printing of the result, or which argument it
+    modified (the set of a cascaded value belongs to the declaration of a style-sheet rule)."""
+    import copy
+    from weasyprint.css import text_decoration
+
+    def build(wire):
+        if wire == 'none':
+            return 'none'
+        if isinstance(wire, list):
+            return set(wire)
+        return ('opaque', wire)          # any other computed value: compared by identity of its tag
+
+    def show(result):
+        if isinstance(result, str) and result == 'none':
+            return 'none'
+        if isinstance(result, (set, frozenset)):
+            return '{' + '+'.join(line for line in DECO_LINES if line in result) + '}'
+        if isinstance(result, tuple) and result[0] == 'opaque':
+            return result[1]
+        return f'?{result!r}'
+    value_obj, parent_obj = build(value), build(parent)
+    before = copy.deepcopy((value_obj, parent_obj))
+    result = text_decoration(key, value_obj, parent_obj, cascaded)
+    shown = show(result)
+    if value_obj != before[0]:
+        return f'mutated-argument:value:{show(before[0])}->{show(value_obj)}'
+    if parent_obj != before[1]:
+        return f'mutated-argument:parent_value:{show(before[1])}->{show(parent_obj)}'
+    return shown
+
+
+def section_text_decoration(run):
+    sec = run.section(
+        'text-decoration',
+        'real css.text_decoration(key, value, parent_value, cascaded) on fresh objects: the four text-decoration '
+        'properties and an unrelated one, values none / every kind of set of lines / other values; compared: the '
+        'result, and that neither argument was modified (a cascaded set is the object stored in the style sheet); '
+        'non-trivial = text-decoration-line with two sets')
+    for _ in range(run.n(600, 6000)):
+        key = run.rng.choice(DECO_KEYS)
+
+        def pick(number):
+            if key == 'text_decoration_line':
+                if run.rng.random() < 0.3:
+                    return 'none'
+                return run.rng.sample(DECO_LINES, run.rng.randrange(1, 4))
+            return run.rng.choice(['none', f'v{number}', f'v{number + 2}'])
+        value, parent, cascaded = pick(1), pick(2), run.rng.random() < 0.5
+        out = docs.outcome(lambda: run_text_decoration(key, value, parent, cascaded))
+        both = isinstance(value, list) and isinstance(parent, list)
+        sec.add(sx.line('textdeco', key, value, parent, cascaded), out,
+                meta={'key': key, 'value': value, 'parent': parent, 'cascaded': cascaded}, nontrivial=both,
+                tags=[key, 'union' if both else 'pass-through'])
 
 
 # ---------------------------------------------------------------------------------------------- write_pdf sinks
@@ -1167,6 +1236,26 @@ class RenderRecorder:
         tail += f' document={self.label(document)}'
         if document.font_config is not context_obj.font_config:
             tail += ' document-font-differs'
+        # every container the LayoutContext holds (instance or class attribute: caches, lists of pending boxes, …)
+        # must be this render's own: the very object held by the context of an earlier render is shared state
+        index = len(self.created) - 1
+        held = getattr(self, '_containers', {})
+        shared = []
+        for name in dir(context_obj):
+            if name.startswith('__'):
+                continue
+            try:
+                value = getattr(context_obj, name)
+            except Exception:  # noqa: BLE001
+                continue
+            if not isinstance(value, (dict, list, set)) or self.label(value).startswith('c'):
+                continue
+            owner = held.get(id(value))
+            if owner is not None and owner[0] != index and owner[1] is value:
+                shared.append(name)
+            held.setdefault(id(value), (index, value))
+        self._containers = held
+        tail += ' shared=' + ','.join(sorted(shared))
         return ' '.join(events) + ' => ' + tail
 
 
@@ -1283,8 +1372,9 @@ def section_render_state(run):
         'render-state',
         'histories of 1..4 real HTML.render calls with recording constructors: font_config / counter_style / cache '
         '(None, dict, DiskCache, folder) / stylesheets (CSS objects, raw files) given or not, shared or fresh; '
-        'compared: the creation / read / write events of every render and the owner (caller, this render, an earlier '
-        'render) of everything its LayoutContext holds; non-trivial = at least two renders')
+        'compared: the creation / read / write events of every render, the owner (caller, this render, an earlier '
+        'render) of everything its LayoutContext holds, and the container attributes (instance or class level) of the '
+        'context that are the very objects of an earlier render\'s context; non-trivial = at least two renders')
     for _ in range(run.n(40, 400)):
         wire = gen_render_history(run.rng)
         tags = [f'renders{len(wire)}']
@@ -1375,10 +1465,33 @@ def make_history_jobs(rng, count):
         options = dict(rng.choice(BASE_OPTION_SETS))
         image_set = rng.randrange(len(IMAGE_OPTION_SETS))
         options.update(IMAGE_OPTION_SETS[image_set])
-        jobs.append({'html': html, 'css': rng.choice(c19_history.USER_SHEETS), 'options': options,
+        css = rng.choice(c19_history.USER_SHEETS)
+        if 'decorations' in features:
+            # the rules the nested decorations of the document come from: a CSS object shared between renders
+            css = c19_history.DECORATION_SHEET + (css or '')
+        jobs.append({'html': html, 'css': css, 'options': options,
                      'zoom': rng.choice([1, 1, 0.5, 2, 1.25, 0.1, 10, 3.3]), 'features': features,
                      'raw_css': rng.random() < 0.3,
                      'image_set': image_set})
+    return jobs + make_special_jobs(rng, count)
+
+
+def make_special_jobs(rng, count):
+    """Jobs outside the test environment's fixed fonts / UA sheet:
+    * `real_ua`: the plain weasyprint.HTML, i.e. the module-level UA style sheets every render of the process shares;
+    * `fresh_env_only` pairs: the same font style, the family bound by @font-face in one document only - only ever
+      rendered with a font configuration of their own (with a shared one the second differs by the known finding
+      font-config-accumulates-font-faces)."""
+    from harness import c19_history
+    jobs = []
+    for number in range(2 if count <= 10 else 6):
+        jobs.append({'html': c19_history.gen_ua_doc(rng, flip=number % 2 == 1), 'css': rng.choice([None, c19_history.DECORATION_SHEET]),
+                     'options': {}, 'zoom': 1, 'features': ['real-ua'], 'raw_css': False, 'image_set': 0,
+                     'real_ua': True})
+    for number in range(1 if count <= 10 else 3):
+        for html in c19_history.gen_binding_pair(rng, number):
+            jobs.append({'html': html, 'css': None, 'options': {}, 'zoom': 1, 'features': ['font-binding'],
+                         'raw_css': False, 'image_set': 0, 'fresh_env_only': True, 'pair': number})
     return jobs
 
 
@@ -1413,6 +1526,9 @@ def section_history(run):
     references = run_children(jobs, seeds, run.rng)
     reference = references[0][1]
     nonce = [0]
+    # fixed sequences of the jobs that use process-wide objects, against each job ALONE in a process (first: their
+    # disagreements name the history that makes a render differ)
+    section_sequences(run, sec, jobs, nonce)
     # the fresh processes agree with each other
     for hashseed, other in references[1:]:
         for index in range(len(jobs)):
@@ -1426,7 +1542,7 @@ def section_history(run):
         if not run.thorough and index > stateful:      # quick: the jobs with state-carrying features and one more
             break
         env = c19_history.fresh_env()
-        html = c19_history.make_html(env, job['html'])
+        html = c19_history.make_html(env, job['html'], job.get('real_ua', False))
         sheets = c19_history.make_sheets(env, job)
         for attempt in range(2):
             write_twice = 'dpi' not in job['options']
@@ -1468,14 +1584,15 @@ def section_history(run):
                 # the cache is shared by renders with different image options (the key holds them since bca20a5),
                 # but never by renders with `dpi` (known finding dpi-thumbnail-replaces-source)
                 step_cache = None
-            step_env = env if env is not None else c19_history.fresh_env()
+            own_env = env is None or job.get('fresh_env_only', False)
+            step_env = c19_history.fresh_env() if own_env else env
             key = (index, id(step_env))
-            reuse_html = run.rng.random() < 0.6
+            reuse_html = run.rng.random() < 0.6 and not job.get('fresh_env_only', False)
             html = html_objects.get(key) if reuse_html else None
             if html is None:
-                html = c19_history.make_html(step_env, job['html'])
+                html = c19_history.make_html(step_env, job['html'], job.get('real_ua', False))
                 html_objects[key] = html
-            sheets = sheet_objects.get(key) if run.rng.random() < 0.6 else None
+            sheets = sheet_objects.get(key) if run.rng.random() < 0.6 and not job.get('fresh_env_only') else None
             if sheets is None:
                 sheets = c19_history.make_sheets(step_env, job)
                 sheet_objects[key] = sheets
@@ -1488,7 +1605,7 @@ def section_history(run):
                                              copy_first=copy_first)
             except Exception as exc:  # noqa: BLE001
                 result = {'error': f'{type(exc).__name__}: {exc}'}
-            how = {'step': step, 'share_env': share_env, 'copy_first': copy_first, 'write_twice': write_twice, 'cache': cache_kind if step_cache is not None else 'none',
+            how = {'step': step, 'share_env': share_env and not own_env, 'copy_first': copy_first, 'write_twice': write_twice, 'cache': cache_kind if step_cache is not None else 'none',
                    'counter_style': counter_style is not None, 'repeat': index in steps,
                    'reuse_html': reuse_html and key in html_objects}
             tags = [f'step{step}', 'shared-font-config' if share_env else 'fresh-font-config',
@@ -1514,7 +1631,7 @@ def section_history(run):
                 Path(folder).rmdir()
     # every order of three jobs in one shared environment (font configuration, image cache): the result of a job must
     # not depend on which jobs ran before it
-    plain = [i for i, job in enumerate(jobs) if 'dpi' not in job['options']]
+    plain = [i for i, job in enumerate(jobs) if 'dpi' not in job['options'] and not job.get('fresh_env_only')]
     for _ in range(run.n(1, 8)):
         if len(plain) < 3:
             break
@@ -1534,6 +1651,76 @@ def section_history(run):
                         meta={'validation': 'history', 'job': job,
                               'how': {'order': list(order), 'position': position, 'mixed_image_options': mixed}},
                         nontrivial=position > 0, tags=['permutation'])
+
+
+def run_alone(jobs, hashseed=7):
+    """Every job ALONE in a fresh interpreter of its own (at most four at a time) -> results in job order."""
+    out = []
+    for start in range(0, len(jobs), 4):
+        chunk = jobs[start:start + 4]
+        started = []
+        for job in chunk:
+            with tempfile.NamedTemporaryFile('w', suffix='.json', delete=False) as handle:
+                json.dump([job], handle)
+            from harness import c19_history
+            env = dict(os.environ, PYTHONHASHSEED=str(hashseed), SOURCE_DATE_EPOCH=c19_history.EPOCH)
+            proc = subprocess.Popen([sys.executable, str(HERE.parent / 'harness' / 'c19_history.py'), handle.name],
+                                    stdout=subprocess.PIPE, stderr=subprocess.PIPE, text=True, env=env)
+            started.append((handle.name, proc))
+        for path, proc in started:
+            try:
+                stdout, stderr = proc.communicate(timeout=900)
+            finally:
+                os.unlink(path)
+            if proc.returncode != 0:
+                raise RuntimeError('history child failed: ' + stderr[-800:])
+            out.append(json.loads(stdout)['results'][0])
+    return out
+
+
+def sequence_clause(jobs, order, alone=None):
+    """C19 'in the same process after any other renders': the jobs rendered one after the other in this process, each
+    with an HTML object, CSS objects, font configuration and caches of its own, must each give what the job gives
+    alone in a fresh process.  -> (text or None, [(position, job index, signature, reference signature)])"""
+    from harness import c19_history
+    alone = alone if alone is not None else run_alone(jobs)
+    rows = []
+    what = None
+    for position, index in enumerate(order):
+        try:
+            result = c19_history.run_job(jobs[index], env=c19_history.fresh_env())
+        except Exception as exc:  # noqa: BLE001
+            result = {'error': f'{type(exc).__name__}: {exc}'}
+        got, want = history_signature(result), history_signature(alone[index])
+        rows.append((position, index, got, want, result.get('mutated') or []))
+        if what is None and got != want:
+            what = (f'render {position} of the sequence {list(order)} (job {index}: new HTML object, new font '
+                    f'configuration, new caches) gives {got}, the same job alone in a fresh process {want}: the '
+                    'result depends on the renders made before it in the process')
+        elif what is None and result.get('mutated'):
+            what = f'render {position} of the sequence {list(order)} modified the caller\'s {result["mutated"]}'
+    return what, rows
+
+
+def section_sequences(run, sec, jobs, nonce):
+    """The special jobs (real UA sheet, font-binding pairs) in fixed sequences: forwards, backwards, repeated."""
+    special = [job for job in jobs if job.get('real_ua') or job.get('fresh_env_only')]
+    if not special:
+        return
+    alone = run_alone(special)
+    n = len(special)
+    orders = [list(range(n)), list(reversed(range(n)))]
+    if run.thorough:
+        orders.append([run.rng.randrange(n) for _ in range(2 * n)])
+    for order in orders:
+        _, rows = sequence_clause(special, order, alone)
+        for position, index, got, want, mutated in rows:
+            nonce[0] += 1
+            meta = {'validation': 'sequence', 'jobs': special, 'order': order, 'position': position}
+            sec.add(sx.line('echo', want, nonce[0]), got, meta=meta, nontrivial=position > 0,
+                    tags=['sequence', 'real-ua' if special[index].get('real_ua') else 'font-binding'])
+            sec.add(sx.line('echo', 'unchanged', nonce[0]), 'mutated:' + ','.join(mutated) if mutated else 'unchanged',
+                    meta=dict(meta, validation='sequence-mutation'), nontrivial=True, tags=['snapshot'])
 
 
 # ---------------------------------------------------------------------------------------------- module state
@@ -1556,7 +1743,8 @@ def module_state_snapshot():
         except Exception as exc:  # noqa: BLE001
             out[(rel, name)] = f'unreadable:{type(exc).__name__}'
             continue
-        out[(rel, name)] = hashlib.md5(c19_history.deep_fingerprint(value, depth=9).encode()).hexdigest()
+        # depth 14 reaches the declaration values inside the matchers of the parsed UA style sheets
+        out[(rel, name)] = hashlib.md5(c19_history.deep_fingerprint(value, depth=14).encode()).hexdigest()
     return out
 
 
@@ -1879,7 +2067,8 @@ class C19(PropCheck):
     extractors = (pdf_variants.generate, module_state.generate, purity_inventory.generate,
                   image_key_table.generate)
     modules = ('WpModel.Props.C19', 'WpModel.Props.C19Purity', 'WpModel.Props.C19State', 'WpModel.Witness.C19',
-               'WpModel.Props.C19Pm2', 'WpModel.Props.C19Key', 'WpModel.Props.C19Names')
+               'WpModel.Props.C19Pm2', 'WpModel.Props.C19Key', 'WpModel.Props.C19Names', 'WpModel.Props.C19Cascade',
+               'WpModel.Props.C19Memo')
     trusted_base = (
         'modelled, not verified: generate_pdf / add_links / make_bookmark_tree coordinates, Document.copy, '
         'resolve_links, get_image_from_uri + RasterImage cache writes, write_pdf sinks, the allocation skeleton of '
@@ -1923,6 +2112,7 @@ class C19(PropCheck):
         timed('write-state', section_write_state, run, factory, ImageWorld())
         timed('sinks', section_sinks, run)
         timed('render-state', section_render_state, run)
+        timed('text-decoration', section_text_decoration, run)
         timed('functions', section_functions, run, factory)
         timed('module-state', section_module_state, run, module_before)
         run.extra['section_seconds'] = timings
@@ -1947,6 +2137,16 @@ class C19(PropCheck):
             return self._judge_sinks(d)
         if section == 'render-state':
             return self._judge_render_state(d)
+        if section == 'text-decoration':
+            out = run_text_decoration(meta['key'], meta['value'], meta['parent'], meta['cascaded'])
+            if out.startswith('mutated-argument'):
+                _, which, change = out.split(':', 2)
+                return (f'css.text_decoration({meta["key"]!r}, {meta["value"]}, {meta["parent"]}, {meta["cascaded"]}) '
+                        f'modified its argument {which} ({change}): a cascaded value is the object stored in the rule '
+                        'of the style sheet, so every element the rule matches afterwards - in this render and in '
+                        'every later render using the sheet (the UA sheet: every render of the process) - gets the '
+                        'union (rendering modifies the CSS objects it was given)')
+            return None
         if section == 'resolve-links':
             return self._judge_resolve(d)
         if section == 'write-state' and 'selections' in meta:
@@ -1967,6 +2167,10 @@ class C19(PropCheck):
                 return None
             return (f'{REGRESSIONS[ident][2]} - the committed input of the repaired finding {ident} (fix: '
                     f'{REGRESSIONS[ident][1]}) fails again')
+        if section.startswith('history') and meta.get('validation', '').startswith('sequence'):
+            what, _ = sequence_clause(meta['jobs'], meta['order'])
+            return what or (f'sequence: render {meta["position"]} of {meta["order"]} gave {d["impl"]} where the job '
+                            f'alone in a fresh process gives {d["model"]}')
         if section.startswith('history') or section.startswith('three-sinks'):
             kind = meta.get('validation')
             return (f'{kind}: the same input gave {d["impl"]} where the reference is {d["model"]} '
@@ -2033,6 +2237,11 @@ class C19(PropCheck):
                 if '=' not in field:
                     continue
                 name, labels = field.split('=', 1)
+                if name == 'shared':
+                    if labels:
+                        return (f'the LayoutContext of render {index} of the history holds the very container object(s) '
+                                f'{labels} of the context of an earlier render: state shared between renders')
+                    continue
                 for label in filter(None, labels.split(',')):
                     if label == '?' or (label.startswith('n') and label != f'n{index}'):
                         return (f'render {index} of the history uses a {name} object ({label}) that is neither the '
@@ -2133,9 +2342,9 @@ class C19(PropCheck):
             for _ in range(run.n(20, 150)):
                 index = run.rng.randrange(len(jobs))
                 job = jobs[index]
-                if 'dpi' in job['options']:
-                    continue          # known finding dpi-thumbnail-replaces-source
-                html = htmls.setdefault(index, c19_history.make_html(env, job['html']))
+                if 'dpi' in job['options'] or job.get('fresh_env_only'):
+                    continue          # known findings dpi-thumbnail-replaces-source / font-config-accumulates-font-faces
+                html = htmls.setdefault(index, c19_history.make_html(env, job['html'], job.get('real_ua', False)))
                 run.search_stats['evaluations'] += 1
                 try:
                     result = c19_history.run_job(job, env=env, html=html, cache=cache, write_twice=True)
@@ -2181,7 +2390,7 @@ class C19(PropCheck):
                 return what
             reference = run_child([job], 99, [0])[0]
             env = c19_history.fresh_env()
-            html = c19_history.make_html(env, job['html'])
+            html = c19_history.make_html(env, job['html'], job.get('real_ua', False))
             cache = {}
             for _ in range(3):
                 result = c19_history.run_job(job, env=env, html=html, cache=cache, write_twice=True)
@@ -2197,6 +2406,8 @@ class C19(PropCheck):
                             calls=tuple_calls(meta['calls']))
             if inp['section'].startswith('regressions'):
                 return self.judge({'section': inp['section'], 'meta': meta})
+            if inp['section'].startswith('history') and meta.get('validation', '').startswith('sequence'):
+                return sequence_clause(meta['jobs'], meta['order'])[0]
             if inp['section'].startswith('history') or inp['section'].startswith('three-sinks'):
                 job = meta.get('job')
                 if job is None:
